@@ -204,7 +204,44 @@ class LazyModel(histmc.HistModel):
         return tuple(digest_table(pt, pt.elements, order))
 
 
-XRAY_ELEMENTS = ("H", "C", "O", "Si", "Fe", "Cu", "Gd", "Au", "U")
+MEMO_ATOMS = [("n", "pt.elements[0]"), ("N", "pt.N"), ("H", "pt.H"), ("D", "pt.D"), ("Dp", "pt.D.ion[1]"),
+              ("Hm", "pt.H.ion[-1]"), ("Fe", "pt.Fe"), ("Fe2", "pt.Fe.ion[2]"), ("Fe56_2", "pt.Fe[56].ion[2]"),
+              ("No", "pt.No"), ("na", "pt.Na"), ("Ni", "pt.Ni")]
+
+
+MEMO_EXPAND = ("n", "N", "H", "Dp", "Fe2", "na")
+
+
+class MemoModel(LazyModel):
+    """Sub-alphabet for the per-atom memo caches that the main key deliberately ignores (`_xray`
+    objects, loaded scattering-factor tables, the Cromer-Mann formula cache): reads of x-ray data
+    through atoms whose symbols collide in some spelling (n / N / Na / Ni / No, H / D and their ions).
+    The key is refined with the memo state of exactly these atoms, so that the closure of this small
+    alphabet is explored without merging."""
+    def events(self):
+        if self._events is None:
+            evs = []
+            for name, expr in MEMO_ATOMS:
+                evs.append(Event("memo:sf:%s" % name, "%s.xray.scattering_factors(energy=8.0)" % expr,
+                                 name in MEMO_EXPAND, "xray"))
+            for name, expr in MEMO_ATOMS:
+                evs.append(Event("memo:f0:%s" % name, "%s.xray.f0(1.0)" % expr, False, "xray"))
+                evs.append(Event("memo:sld:%s" % name, "pt.xray_sld({%s: 1}, density=1.0, energy=8.0)" % expr, False, "xray"))
+            self._events = evs
+        return self._events
+
+    def key(self, ns):
+        pt = ns["pt"]
+        base = LazyModel.key(self, ns)
+        bits = []
+        for name, expr in MEMO_ATOMS:
+            a = eval(expr, dict(pt=pt))
+            x = a.__dict__.get("_xray")
+            bits.append((name, x is not None, x is not None and x.__dict__.get("_table") is not None))
+        return hashlib.sha1((base + repr(bits)).encode()).hexdigest()[:20]
+
+
+XRAY_ELEMENTS = ("H", "C", "N", "n", "O", "Si", "Fe", "Cu", "Gd", "Au", "U")
 COMPOUNDS = [("H2O", 1.0), ("D2O", 1.11), ("SiO2", 2.2), ("Gd2O3", 7.4), ("B4C", 2.52)]
 
 
@@ -306,7 +343,7 @@ def canonical(model):
     """Observations of every event and the digest in the canonical history, from a pristine fork."""
     def work():
         ns = model.namespace()
-        evs = dict((e.name, e) for e in model.events())
+        evs = dict((e.name, e) for e in LazyModel().events())
         for n in CANONICAL:
             model.observe(evs[n], ns)
         obs = {}
@@ -344,13 +381,16 @@ class Oracle(object):
         self.model, self.acc, self.can_obs, self.can_dig = model, acc, can_obs, can_dig
         self.evs = dict((e.name, e) for e in model.events())
 
-    def __call__(self, key, res):
+    def __call__(self, key, res, second=False):
         acc = self.acc
         hist = res["hist"]
         bad = False
-        acc.states += 1
-        if hist:
-            acc.nontrivial += 1
+        if second:
+            acc.count("second_representative_states")
+        else:
+            acc.states += 1
+            if hist:
+                acc.nontrivial += 1
         for name, obs in [(e, o) for e, o, _ in res["edges"]] + list(res["probes"]):
             acc.transitions += 1
             acc.evaluations += 1
@@ -402,17 +442,27 @@ def run(ctx):
     runs = []
     if ctx.quick:
         ex = histmc.Explorer(model, ctx.jobs, ctx.log).run(depth=3, on_state=oracle, probe_levels=2)
+        ex.oracle = oracle
         runs.append(("depth3-full", ex))
     else:
         cap = int(os.environ.get("VERIF_C09_CAP", "0")) or None
         ex = histmc.Explorer(model, ctx.jobs, ctx.log).run(depth=None, on_state=oracle, state_cap=cap)
+        ex.oracle = oracle
         runs.append(("closure-full", ex))
+    # memo-cache sub-alphabet (colliding symbols) with a refined key
+    memo = MemoModel()
+    mcan_obs, mcan_dig = canonical(memo)
+    moracle = Oracle(memo, acc, mcan_obs, mcan_dig)
+    mex = histmc.Explorer(memo, ctx.jobs, ctx.log).run(depth=(3 if ctx.quick else None), on_state=moracle)
+    mex.oracle = moracle
+    runs.append(("memo-depth3" if ctx.quick else "closure-memo", mex))
     second = 0
     for label, ex in runs:
         if ex.nondeterminism:
             raise MachineryError("replay of a history reached a different key: %r" % ex.nondeterminism[:2])
         second += ex.validate_seconds(expand_names=None, max_level=(1 if ctx.quick else None),
-                                      probe_levels=(2 if ctx.quick else None))
+                                      probe_levels=(2 if ctx.quick else None),
+                                      oracle=lambda k, r, orc=ex.oracle: orc(k, r, second=True))
         if ex.key_conflicts:
             raise MachineryError("canonical key too coarse: %r" % ex.key_conflicts[:3])
         acc.info["states:" + label] = len(ex.rep)
@@ -422,27 +472,33 @@ def run(ctx):
                 acc.cap("%s not closed: %d states unexpanded" % (label, len(ex.unexpanded)))
     acc.info["second_representatives_validated"] = second
     # trace validation in brand-new interpreters
-    hists = []
+    todo = []
+    probe_names = [e.name for e in model.events() if e.name.startswith("get:el:")]
+    mprobe = [e.name for e in memo.events() if e.name.startswith("memo:sf:")]
     for label, ex in runs:
         items = sorted(ex.rep.items(), key=lambda kv: (len(kv[1]), kv[1]))
         step = 1 if not ctx.quick else max(1, len(items) // 6)
-        hists += [h for _, h in items[::step] if h]
-    if ctx.quick:
-        hists = hists[:12]
-    hists.append(tuple(CANONICAL))
-    probe_names = [e.name for e in model.events() if e.name.startswith("get:el:")]
-    def validate(h):
-        got = histmc.fresh_replay("mc.props.c09", "LazyModel", h, probe_names)
-        want = [can_obs[n] for n in list(h) + probe_names]
-        return (h, got, want)
+        hs = [h for _, h in items[::step] if h]
+        if ctx.quick:
+            hs = hs[:8]
+        if ex is mex:
+            todo += [("MemoModel", h, mprobe, mcan_obs) for h in hs]
+        else:
+            todo += [("LazyModel", h, probe_names, can_obs) for h in hs]
+    todo.append(("LazyModel", tuple(CANONICAL), probe_names, can_obs))
+    def validate(item):
+        factory, h, probes, cobs = item
+        got = histmc.fresh_replay("mc.props.c09", factory, h, probes)
+        want = [cobs[n] for n in list(h) + probes]
+        return (factory, h, probes, got, want)
     from ..common import pmap
-    res = pmap(validate, hists, ctx.jobs, "fresh-replay")
-    evs = dict((e.name, e) for e in model.events())
-    for h, got, want in res:
+    res = pmap(validate, todo, ctx.jobs, "fresh-replay")
+    evs = dict((e.name, e) for e in list(model.events()) + list(memo.events()))
+    for factory, h, probes, got, want in res:
         acc.traces += 1
         # a fresh interpreter must observe exactly what the forked exploration observed: for clean
         # states that is the canonical observation of every event
-        for n, g, w in zip(list(h) + probe_names, got, want):
+        for n, g, w in zip(list(h) + probes, got, want):
             if g != w:
                 acc.violation("%s:%s" % (evs[n].group, failure_kind(w, g)), dict(history=list(h), event=n, fresh=True),
                               expected=w[:300], observed=g[:300], standalone=snippet(h, n, evs))
@@ -454,12 +510,13 @@ def run(ctx):
 
 
 def replay(ctx, case, signature=None):
-    model = LazyModel()
+    hist = list(case["history"])
+    is_memo = any(n.startswith("memo:") for n in hist + [case.get("event") or ""])
+    model = MemoModel() if is_memo else LazyModel()
     can_obs, can_dig = canonical(model)
     evs = dict((e.name, e) for e in model.events())
-    hist = list(case["history"])
     if case.get("event"):
-        got = histmc.fresh_replay("mc.props.c09", "LazyModel", hist, [case["event"]])[-1]
+        got = histmc.fresh_replay("mc.props.c09", "MemoModel" if is_memo else "LazyModel", hist, [case["event"]])[-1]
         want = can_obs[case["event"]]
         if got != want:
             ctx.acc.violation(signature or "replay", case, expected=want[:300], observed=got[:300],
